@@ -42,6 +42,19 @@ CLAIMS = {
          "of random pairs (quick) / all pairs up to 3+3 over {none,A,B}x{x,y} (thorough) built by setters or parsed."),
    technique="Coq proof (induction over the base's runs; per-section refinement to an association-list override) + differential correspondence",
    ref="6 (C03)"),
+ "C04": dict(
+   text=("PARTIAL. Theorems: C04_read_codes / C04_line_codes (for EVERY byte string, delimiter set, comment set and option the "
+         "parser model terminates — it is a total Coq function, every loop structural — with success or one of the four "
+         "documented parse codes); C04_W1..W6_safe (index-level models with CHECKED reads/writes of the six pointer walks that "
+         "move backwards or index strlen-1 — key trim, value trim with the quote data--/p--, the unbounded walk before ']', "
+         "newline strip, libeconf_ext rtrim, stripbrackets — never leave the buffer, for all buffers; the two walks without a "
+         "bound test are safe because of a sentinel '[' resp. the ltrim precondition, C04_W5_needs_precondition shows the model "
+         "exhibits the overrun without it) and C04_W*_result (they compute what the list-level parser model uses); "
+         "C04_merge_bound. NOT covered by theorems: heap lifetime, use-after-free, libc internals, code outside those sites — "
+         "there the ASan/UBSan + timeout runs on arbitrary byte files (read, every getter, merge in both roles, write, re-read) "
+         "are a search for a failing input, not a claim."),
+   technique="Coq proof (totality/result codes of the parser model; bounds-checked index models of the backward walks) + sanitizer-instrumented differential runs on arbitrary bytes",
+   ref="6 (C04)"),
  "C05": dict(
    text=("Theorem C05_inert: in EVERY parser state, for every option, delimiter set and comment set, a line whose first "
          "non-blank byte is a comment character only extends the pending comment — no key, value, section, continuation or "
